@@ -132,6 +132,25 @@ def build_proofs(prop):
     return res
 
 
+def coqchk(prop, res):
+    """Thorough tier: re-check the compiled Props modules and everything they depend on with the independent
+    checker, and require its context summary to list no axiom, no type-in-type, no unsafe fixpoint, no
+    assumed positivity."""
+    mods = ["TSG.Props.%s" % f for f in props_files(prop)]
+    with Lock("coq"):
+        rc, out = run(["timeout", "3000", "coqchk", "-o", "-silent", "-Q", "theories", "TSG"] + mods, cwd=COQ, timeout=3100)
+    summary = out[out.find("CONTEXT SUMMARY"):] if "CONTEXT SUMMARY" in out else out[-600:]
+    res["coqchk"] = " ".join(summary.split())[:600]
+    if rc != 0 or "CONTEXT SUMMARY" not in out:
+        res["failures"].append("coqchk failed (rc=%d): %s" % (rc, out[-300:]))
+        return
+    for item in ("Axioms", "Constants/Inductives relying on type-in-type", "Constants/Inductives relying on unsafe (co)fixpoints",
+                 "Inductives whose positivity is assumed"):
+        m = re.search(re.escape(item) + r":\s*(.*?)\n\s*\n", summary + "\n\n", re.S)
+        if not m or m.group(1).strip() != "<none>":
+            res["failures"].append("coqchk context summary: %s: %s" % (item, (m.group(1).strip() if m else "?")[:200]))
+
+
 # ------------------------------------------------------------------ harness
 
 def build_harness(debug=False):
@@ -234,13 +253,19 @@ def run_corr(prop, stream, seed, n, wd, extra=None, debug=False):
         shutil.rmtree(wd)
     os.makedirs(wd)
     cmd = [TSGV_DEBUG if debug else TSGV, "gen", stream, "--seed", str(seed), "--n", str(n), "--shards", "16", "--out", wd] + (extra or [])
-    rc, out = run(cmd, cwd=wd, timeout=1500, stderr_file=os.path.join(wd, "gen.stderr"))
+    prog = os.path.join(wd, "progress.json")
+    rc, out = run(cmd, cwd=wd, timeout=1500, stderr_file=os.path.join(wd, "gen.stderr"), env=dict(ENV, TSGV_PROGRESS=prog))
     if rc != 0:
         try:
             out += open(os.path.join(wd, "gen.stderr")).read()[-1500:]
         except Exception:
             pass
-        return {"error": "harness gen failed rc=%d: %s" % (rc, out[-1500:]), "cases": [], "verdicts": {}, "errors": []}
+        crashed = None
+        try:
+            crashed = json.load(open(prog))        # the input the implementation was running when the process died
+        except Exception:
+            pass
+        return {"error": "harness gen failed rc=%d: %s" % (rc, out[-1500:]), "crashed_on": crashed, "cases": [], "verdicts": {}, "errors": []}
     meta = json.load(open(os.path.join(wd, "meta.json")))
     verdicts, errors = eval_cases(wd)
     return {"cases": meta["cases"], "header": meta["header"], "verdicts": verdicts, "errors": errors, "gen_log": out[-2000:], "extra": meta.get("extra", {})}
@@ -334,6 +359,8 @@ def main(argv):
 
     # 1. proofs
     proof = build_proofs(prop)
+    if tier == "thorough" and not proof["failures"]:
+        coqchk(prop, proof)
     log("[%s] proofs: %d/%d theorems discharged%s" % (prop, proof["discharged"], proof["obligations"],
         "" if not proof["failures"] else "  FAILURES: " + "; ".join(proof["failures"])))
 
@@ -383,8 +410,14 @@ def main(argv):
             r["stream"] = st; r["seed"] = sd
             streams_out.append(r)
             if r.get("error"):
-                path = write_replay(prop, sd, st["name"] + "-gen", {"property": prop, "what": "correspondence stream %s could not run: %s" % (st["name"], r["error"])})
-                violations.append((path, False, r["error"]))
+                if r.get("crashed_on"):
+                    path = write_replay(prop, sd, st["name"] + "-crash", {"property": prop, "stream": st["name"], "seed": sd,
+                        "what": "the harness process died (abort / kill / timeout: not a catchable panic) while the implementation was running this input",
+                        "case": r["crashed_on"], "harness_output": r["error"][-600:]})
+                    violations.append((path, True, "harness died on a recorded input"))
+                else:
+                    path = write_replay(prop, sd, st["name"] + "-gen", {"property": prop, "what": "correspondence stream %s could not run: %s" % (st["name"], r["error"])})
+                    violations.append((path, False, r["error"]))
                 continue
             missing = [c["i"] for c in r["cases"] if c["i"] not in r["verdicts"]]
             diffs = [c for c in r["cases"] if r["verdicts"].get(c["i"], 0) != 0]
@@ -484,6 +517,7 @@ def write_evidence(prop, tier, seed, proof, streams_out, kf_lines, t0, nviol, no
             "theorems": proof["theorems"],
             "assumptions_reported": proof["assumptions"],
             "proof_failures": proof["failures"],
+            "coqchk": proof.get("coqchk", "not run in this tier"),
             "partial": cfg.get("partial", []),
             "evaluations": evals,
             "distinct_nontrivial": len(keys),
